@@ -533,12 +533,62 @@ fn probe_repair_every_prefix_of_a_small_archive() {
     }
 }
 
+/// C03: alterations of an archive whose files are INTERLEAVED (the per-file reader then seeks from run to run, which is where a
+/// chunk is loaded and authenticated): a bit flipped in any encryption chunk makes reading each file fail or return exactly its
+/// content -- never a shorter or different one without an error. BOUND: one bit in each of the chunks of the ~340 KB test archive.
+#[test]
+fn probe_alterations_of_an_interleaved_archive_are_detected() {
+    let fa = pnoise(300_000, 71);
+    let fb = pnoise(180_000, 72);
+    let fc = pnoise(200_000, 73);
+    let mut c = ArchiveWriterConfig::new();
+    c.set_layers(Layers::ENCRYPT);
+    c.add_public_keys(&[pkeys().1]);
+    let mut w = ArchiveWriter::from_config(Vec::new(), c).unwrap();
+    let a = w.start_file("a").unwrap();
+    let b = w.start_file("b").unwrap();
+    for k in 0..3 {
+        w.append_file_content(a, 100_000, &fa[k * 100_000..(k + 1) * 100_000]).unwrap();
+        w.append_file_content(b, 60_000, &fb[k * 60_000..(k + 1) * 60_000]).unwrap();
+    }
+    w.end_file(a).unwrap();
+    w.end_file(b).unwrap();
+    w.add_file("c", fc.len() as u64, &fc[..]).unwrap(); // (keeps the footer away from the chunks that are altered)
+    w.finalize().unwrap();
+    let good = w.into_raw();
+    let want = [("a", &fa), ("b", &fb), ("c", &fc)];
+    let nchunks = good.len() / (131072 + 16) + 1;
+    let mut opened = 0;
+    for chunk in 1..nchunks {
+        for off in [100usize, 9000, 40_000, 70_000, 100_000, 131_000] {
+            let at = 150 + chunk * (131072 + 16) + off;
+            if at >= good.len() { continue; }
+            let mut bad = good.clone();
+            bad[at] ^= 0x04;
+            let mut rc = ArchiveReaderConfig::new();
+            rc.add_private_keys(&[pkeys().0]);
+            let Ok(mut r) = ArchiveReader::from_config(Cursor::new(bad), rc) else { continue };
+            opened += 1;
+            for (name, content) in &want {
+                let Ok(Some(mut f)) = r.get_file(name.to_string()) else { continue };
+                let mut got = Vec::new();
+                let res = f.data.read_to_end(&mut got);
+                assert!(res.is_err() || got == **content, "bit flipped at byte {at} (chunk {chunk}): reading {name:?} returned {} bytes of {} WITHOUT an error", got.len(), content.len());
+                let n = got.len().min(content.len());
+                assert!(got[..n] == content[..n], "bit flipped at byte {at} (chunk {chunk}): {name:?} read back with altered bytes");
+            }
+        }
+    }
+    assert!(opened >= 12, "the probe did not exercise enough altered archives ({opened} opened)");
+}
+
 /// C14/C05: a content block whose length is an exact multiple of the 8 MiB copy buffer of `convert_to_archive` is followed by more
 /// data of the same file and by another file: all of it is recovered
 #[test]
 fn probe_repair_block_of_exactly_the_copy_buffer_size() {
-    let big = pnoise(8 * 1024 * 1024 + 1000, 3);
-    for n in [8 * 1024 * 1024 - 1, 8 * 1024 * 1024, 8 * 1024 * 1024 + 1] {
+    let big = pnoise(16 * 1024 * 1024 + 1000, 3);
+    // (a block of two or more buffers: the third round of the copy loop must not read beyond the block)
+    for n in [8 * 1024 * 1024 - 1, 8 * 1024 * 1024, 8 * 1024 * 1024 + 1, 16 * 1024 * 1024, 16 * 1024 * 1024 + 100] {
         let mut w = pnew();
         let a = w.start_file("big").unwrap();
         w.append_file_content(a, n as u64, &big[..n]).unwrap();
@@ -604,9 +654,14 @@ fn probe_reopening_files_gives_the_same_result_every_time() {
         let mut w = ArchiveWriter::from_config(Vec::new(), c).unwrap();
         // interleaved: every file in two blocks
         let ids: Vec<u64> = names.iter().map(|n| w.start_file(n).unwrap()).collect();
-        for (i, id) in ids.iter().enumerate() { w.append_file_content(*id, 5_000, &contents[i][..5_000]).unwrap(); }
-        for (i, id) in ids.iter().enumerate().rev() { w.append_file_content(*id, (contents[i].len() - 5_000) as u64, &contents[i][5_000..]).unwrap(); }
-        for id in &ids { w.end_file(*id).unwrap(); }
+        // (the last file is written and CLOSED between two runs of the first one: a reader of the first file meets a foreign EndOfFile)
+        let last = ids.len() - 1;
+        w.append_file_content(ids[last], contents[last].len() as u64, &contents[last][..]).unwrap();
+        w.append_file_content(ids[0], 5_000, &contents[0][..5_000]).unwrap();
+        w.end_file(ids[last]).unwrap();
+        for i in 1..last { w.append_file_content(ids[i], 5_000, &contents[i][..5_000]).unwrap(); }
+        for i in (0..last).rev() { w.append_file_content(ids[i], (contents[i].len() - 5_000) as u64, &contents[i][5_000..]).unwrap(); }
+        for i in 0..last { w.end_file(ids[i]).unwrap(); }
         w.finalize().unwrap();
         let bytes = w.into_raw();
         let open = || {
@@ -652,6 +707,8 @@ fn probe_reopening_files_gives_the_same_result_every_time() {
                 }
             }
             drop(f);
+            let own = r.get_hash(names[i]).unwrap().unwrap();
+            assert!(own == reference[i].2, "{what}: the hash of the file just read (fully or partly) differs from a fresh reader's");
             let h = r.get_hash(names[(i + 1) % names.len()]).unwrap().unwrap();
             assert!(h == reference[(i + 1) % names.len()].2, "{what}: hash asked afterwards differs from a fresh reader's");
         }
@@ -693,4 +750,76 @@ fn probe_linear_extract_reports_a_failing_writer() {
             }
         }
     }
+}
+
+/// C08 (memory in proportion to the input): a footer whose FIRST name announces a huge length (the count fields of a bincode string
+/// are archive data) is refused with an error -- no panic ("capacity overflow"), no gigabyte allocation, no abort -- for every
+/// layer-less archive of ~140 bytes. BOUND: name-length prefixes 2^63, u64::MAX, 2^62+1, 2^40, 2^33; the honest value still opens.
+#[test]
+fn probe_footer_name_length_is_untrusted() {
+    let mut a = pnew();
+    a.add_file("f", 3, &b"abc"[..]).unwrap();
+    a.finalize().unwrap();
+    let bytes = a.into_raw();
+    let n = bytes.len();
+    let flen = u32::from_le_bytes(bytes[n - 4..].try_into().unwrap()) as usize;
+    let fstart = n - 4 - flen;
+    // footer = bincode(HashMap<String, FileInfo>): u64 count, then for each entry: u64 name length, name bytes, ...
+    assert_eq!(u64::from_le_bytes(bytes[fstart..fstart + 8].try_into().unwrap()), 1, "unexpected footer layout");
+    assert_eq!(u64::from_le_bytes(bytes[fstart + 8..fstart + 16].try_into().unwrap()), 1, "unexpected footer layout");
+    assert!(ArchiveReader::new(Cursor::new(bytes.clone())).is_ok());
+    for hostile in [1u64 << 63, u64::MAX, (1u64 << 62) + 1, 1u64 << 40, 1u64 << 33] {
+        let mut b = bytes.clone();
+        b[fstart + 8..fstart + 16].copy_from_slice(&hostile.to_le_bytes());
+        let r = std::panic::catch_unwind(move || ArchiveReader::new(Cursor::new(b)).is_ok());
+        match r {
+            Err(_) => panic!("a {n}-byte archive whose footer announces a name of {hostile} bytes makes the reader PANIC"),
+            Ok(true) => panic!("a footer announcing a name of {hostile} bytes was accepted"),
+            Ok(false) => {}
+        }
+    }
+}
+
+/// C14/C04: the repair mode does not depend on the ORDER in which the reader configuration is built (keys then mode, mode then keys,
+/// keys added twice): after a flush and a cut, unauthenticated repair recovers every byte appended before the flush in each case,
+/// and the authenticated one a prefix of it
+#[test]
+fn probe_reader_config_builder_order_is_irrelevant() {
+    let content = pnoise(300_000, 91);
+    let mut c = ArchiveWriterConfig::new();
+    c.set_layers(Layers::ENCRYPT);
+    c.add_public_keys(&[pkeys().1]);
+    let sink = SharedSink(std::sync::Arc::new(std::sync::Mutex::new(Vec::new())));
+    let mut w = ArchiveWriter::from_config(sink.clone(), c).unwrap();
+    let id = w.start_file("f").unwrap();
+    w.append_file_content(id, content.len() as u64, &content[..]).unwrap();
+    w.flush().unwrap();
+    let cut: Vec<u8> = sink.0.lock().unwrap().clone();
+    let recover = |order: usize, unauth: bool| -> Vec<u8> {
+        let mut rc = ArchiveReaderConfig::new();
+        match order {
+            0 => { rc.add_private_keys(&[pkeys().0]); if unauth { rc.failsafe_return_data_even_unauthenticated(); } }
+            1 => { if unauth { rc.failsafe_return_data_even_unauthenticated(); } rc.add_private_keys(&[pkeys().0]); }
+            _ => { rc.add_private_keys(&[]); if unauth { rc.failsafe_return_data_even_unauthenticated(); } rc.add_private_keys(&[pkeys().0]); rc.add_private_keys(&[]); }
+        }
+        let mut fs = ArchiveFailSafeReader::from_config(&cut[..], rc).expect("repair opens");
+        let mut oc = ArchiveWriterConfig::new();
+        oc.set_layers(Layers::EMPTY);
+        let mut ow = ArchiveWriter::from_config(Vec::new(), oc).unwrap();
+        fs.convert_to_archive(&mut ow).expect("repair runs");
+        let got = pread_all(Cursor::new(ow.into_raw()), Layers::EMPTY);
+        got.into_iter().find(|(n, _)| n == "f").map(|(_, v)| v).unwrap_or_default()
+    };
+    for order in 0..3 {
+        let u = recover(order, true);
+        assert!(u.len() >= content.len() && u[..content.len()] == content[..], "configuration order #{order} (0: keys,mode; 1: mode,keys; 2: keys,mode,keys): unauthenticated repair after flush+cut recovers {} of {} bytes", u.len().min(content.len()), content.len());
+        let a = recover(order, false);
+        assert!(a.len() <= content.len() && a[..] == content[..a.len()], "configuration order #{order}: authenticated repair is not a prefix of the content");
+    }
+}
+#[derive(Clone)]
+struct SharedSink(std::sync::Arc<std::sync::Mutex<Vec<u8>>>);
+impl Write for SharedSink {
+    fn write(&mut self, b: &[u8]) -> std::io::Result<usize> { self.0.lock().unwrap().extend_from_slice(b); Ok(b.len()) }
+    fn flush(&mut self) -> std::io::Result<()> { Ok(()) }
 }
